@@ -1,5 +1,5 @@
 CONSTANTS
-  Codec = "lp"
+  Codec = "lpe"
   Alpha = {}
   MaxLen = 0
   LpBad = 9
@@ -8,7 +8,7 @@ CONSTANTS
   KeepBufOnPending = TRUE
   SurfaceIoErr = TRUE
   EofFastPath = FALSE
-  Strict = FALSE
+  Strict = TRUE
 SPECIFICATION TSpec
 INVARIANTS C13_Frames C13_Prefix C13_TerminalLast C13_NoPanic
 PROPERTIES C13_IoErrSurfaced
